@@ -23,7 +23,7 @@ BIG = 1.0e6                    # target side exchange() timeout (the spec assume
 K_ACK = "OneFaultOk:corrupted-ACK-while-initiator-chains:NAK-answered-by-ACK-rejected"
 K_ATN = "OneFaultOk:DID-in-use:ATN-sent-without-DID-is-ignored-by-target"
 K_MIU = "FrameFits:target-frame-with-DID-exceeds-LRi-by-1"
-K_LEN = "OnlyCommErr:Target.exchange-raised-Other:builtins.error"       # struct.error: LEN byte 256 (DID, LRi=254)
+K_LEN = "OnlyCommErr:Target.exchange-raised-Other:struct.error"        # LEN byte 256 (DID, LRi=254)
 
 
 # ------------------------------------------------------------------ payloads (same functions in Trace_NfcDep.tla)
